@@ -2,7 +2,7 @@
    Strings are lists of Unicode code points; `parse_string` = tokenize_group + parse_formula of
    boolean_expression/_impl_parser.rs, step by step, with every slice as a possible Panic. *)
 From Coq Require Import List NArith Bool. Import ListNotations.
-From BddVerif Require Import Model.Bdd Model.Apply Model.Ops Model.Expr Proofs.ExprParse Proofs.ExprShow Proofs.ExprLegacy Proofs.ExprGrammar.
+From BddVerif Require Import Model.Bdd Model.Apply Model.Ops Model.Expr Proofs.ExprParse Proofs.ExprShow Proofs.ExprLegacy Proofs.ExprGrammar Proofs.ExprTable Generated.ExprTables Proofs.ExprSource.
 
 (* THE totality clause: for every input string (every list of code points), try_from returns Ok or Err:
    no slice is out of range, no `unreachable!` is reached, and the recursion bound is never hit *)
@@ -88,3 +88,37 @@ Example C14_show_parse_nonvacuous :
   safe_names (EVar [97; 32; 98]%N) = false /\ parse_string (show (EVar [97; 32; 98]%N)) = PErr.
 Proof. vm_compute. repeat split; reflexivity. Qed.
 Print Assumptions C14_show_parse_nonvacuous.
+
+(* ---- translator obligations: the single- and multi-character tokens, NOT_IN_VAR_NAME, the precedence chain (for every
+   level: operator token, constructor, functions called for the left operand / right operand / when the operator is absent),
+   the conditional level, the entry point, the terminal level (negation prefix, keywords) and the Display format strings are
+   re-read from the Rust source by tools/gen_expr.py on every run of this check (Generated/ExprTables.v) and equal the
+   model's tables; each model table characterises the hand-written model function (Proofs/ExprTable.v), hence the theorems
+   above are statements about the parser the source describes *)
+Theorem C14_source_tables :
+  src_single = model_single /\ src_multi = model_multi /\ src_reserved = model_reserved /\ src_levels = model_levels /\
+  src_cond = model_cond /\ src_entry = model_entry /\ src_terminal = model_terminal /\
+  src_show_binary = model_show_binary /\ src_show_not = model_show_not /\ src_show_cond = model_show_cond /\
+  src_show_leaf = model_show_leaf.
+Proof. exact source_tables. Qed.
+Print Assumptions C14_source_tables.
+Theorem C14_source_precedence : forall row, In row src_levels -> forall f ts,
+  parse_at (S f) (r_level row) ts =
+  match index_of (tok_is (r_tok row)) ts with
+  | Some i =>
+    with_slice ts O i (fun l => pbind (parse_at f (r_left row) l) (fun a =>
+    with_slice ts (S i) (length ts) (fun r => pbind (parse_at f (r_right row) r) (fun b => POk (mk_of (r_ctor row) a b)))))
+  | None => parse_at f (r_else row) ts
+  end.
+Proof. exact source_precedence. Qed.
+Print Assumptions C14_source_precedence.
+Theorem C14_source_tokens :
+  (forall c t, In (c, t) src_single -> forall f r top, tokenize_group (S f) (c :: r) top = tcons t (tokenize_group f r top)) /\
+  (forall s t, In (s, t) src_multi -> forall f r top, tokenize_group (S f) (s ++ r) top = tcons t (tokenize_group f r top)) /\
+  (forall c, reserved c = existsb (N.eqb c) src_reserved).
+Proof. exact (conj source_single_tokens (conj source_multi_tokens source_reserved)). Qed.
+Print Assumptions C14_source_tokens.
+Theorem C14_source_show_binary : forall c p i s, In (c, [p; i; s]) src_show_binary ->
+  forall a b, show (mk_of c a b) = p ++ show a ++ i ++ show b ++ s.
+Proof. exact source_show_binary. Qed.
+Print Assumptions C14_source_show_binary.
